@@ -41,6 +41,7 @@ type Net struct {
 	Refuse    map[string]syscall.Errno
 	OnEvent   func(string)
 	ManualFor func(target string) bool // connections to these targets get scheduler-controlled delivery even in Auto mode
+	Gate      func()                   // called before every Read / Write of a server-side end (swarm option: network operations as scheduling points)
 }
 
 var Cur *Net
@@ -141,6 +142,9 @@ func (n *Net) netName(target string) string {
 
 func (e *End) Read(b []byte) (int, error) {
 	n := e.p.net
+	if g := n.Gate; g != nil && !e.client {
+		g()
+	}
 	for {
 		n.mu.Lock()
 		h := e.in()
@@ -186,6 +190,9 @@ func (e *End) Read(b []byte) (int, error) {
 
 func (e *End) Write(b []byte) (int, error) {
 	n := e.p.net
+	if g := n.Gate; g != nil && !e.client {
+		g()
+	}
 	n.mu.Lock()
 	defer n.mu.Unlock()
 	h := e.out()
